@@ -18,7 +18,9 @@ LEVEL = "proof"
 TRUSTED = [
     "Model/FiltStr.lean is a hand transcription of do_truncate, do_indent (with Python's str.splitlines), do_center "
     "(str.center), do_trim (str.strip / str.isspace), do_replace (str.replace with count), do_wordcount on ASCII and the "
-    "unit selection of do_filesizeformat; tied to filters.py by this correspondence run only",
+    "unit selection of do_filesizeformat, do_striptags on text without '&' (markupsafe 3.0's comment loop, tag loop and "
+    "whitespace collapse) and do_format for positional arguments with %s / %d / %% (each argument's str() and %d rendering "
+    "are parameters supplied by Python); tied to filters.py / markupsafe / Python's % by this correspondence run only",
     "translate/convert_table.py: READ part (the except clauses of do_int/do_float, fixed shape) and MEASURED part (which "
     "exception classes int(x[, base]), float(x), int(float(x)) raise on CPython for the sampled value classes); the "
     "convert_total theorem quantifies over the sampled rows, not over all Python values",
@@ -27,8 +29,8 @@ TRUSTED = [
     "output for every generated case, never proved",
     "correspondence-only (no Lean theorem; compared with executable reference definitions / documented contracts in this "
     "file): title/capitalize/upper/lower (Unicode case mapping assumed), urlencode (UTF-8 "
-    "percent-encoding reference; urllib quote assumed), round (float arithmetic assumed), striptags (markupsafe assumed), "
-    "format (printf-style % assumed), the mantissa digits of filesizeformat (float formatting assumed), wordcount on "
+    "percent-encoding reference; urllib quote assumed), round (float arithmetic assumed), entity unescaping in striptags "
+    "(html.unescape assumed), format with keyword arguments or other printf directives (Python's % assumed), the mantissa digits of filesizeformat (float formatting assumed), wordcount on "
     "non-ASCII text (re's \\w assumed), the values returned by int/float when the conversion succeeds",
 ]
 ASSUMPTIONS = [
@@ -41,7 +43,7 @@ ASSUMPTIONS = [
 CLAIM = dict(
     category="proof",
     technique="Lean 4 proofs of the documented contracts of truncate/indent/center/trim/replace/wordcount/filesizeformat "
-              "unit selection on List Char models for all inputs + decide-proof over the except clauses read from "
+              "unit selection/striptags/format(%s,%d,%%) on List Char models for all inputs + decide-proof over the except clauses read from "
               "do_int/do_float and a measured exception table + exhaustive small-string and random differential runs "
               "on the real filter functions and through rendered templates",
     text="Theorems (Props/C23.lean), for all strings and arguments. truncate: rejected iff length < len(end) or leeway < 0 "
@@ -64,25 +66,36 @@ CLAIM = dict(
          "replace_empty_count). wordwrap, relative to textwrap's contract: if textwrap.wrap keeps each paragraph's "
          "non-whitespace text then so does the filter for a whitespace wrap string, and if no wrapped line exceeds the "
          "width then the result is its produced lines joined by the wrap string and none exceeds the width "
-         "(wordwrap_keeps_text, wordwrap_fits). wordcount: additive "
+         "(wordwrap_keeps_text, wordwrap_fits). striptags (text without '&'): the result is the whitespace-collapse of a text t "
+         "obtained from s by deletions only, in t no '<' is followed by a '>', the non-whitespace text of the result is a "
+         "subsequence of that of s; one tag step deletes the leftmost '<' up to the first '>' after it; tag-free text is only "
+         "collapsed; collapse keeps the words, leaves only single plain spaces between them, none at the ends, and is "
+         "idempotent (striptags_spec, stripAll_fixpoint, stripAll_sublist, stripAll_tag_step, stripAll_tag_free, "
+         "stripAll_no_tag_left, striptags_plain, splitWs_words, collapse_keeps_text, collapse_words, collapse_idem, "
+         "collapse_shape). format (%s, %d, %%): the scanner equals parse-then-substitute; success implies the format "
+         "parses and uses exactly as many arguments as directives; substitution is compositional over concatenation; "
+         "literal text is copied, %% gives %, %s str(), %d the number form (format_eq_spec, format_ok_parses, "
+         "fill_ok_length, fill_append, fill_pieces, format_literal). wordcount: additive "
          "over non-word separators, 1 on a non-empty word, 0 on separators only (wordcount_sep, wordcount_word, "
          "wordcount_nonword). filesizeformat: '1 Byte' iff the value is 1; 'n Bytes' iff below the base; otherwise "
          "prefix i with base^(i+1) <= value < base^(i+2) for i < 7 and value >= base^8 for the last prefix "
          "(sizeUnit_spec). int/float: over the except clauses READ from do_int/do_float and the MEASURED table of "
          "exceptions raised by int(x[,base]) / float(x) / int(float(x)) on 292 (value class, base) rows, every raised class "
-         "is caught and the default returned, except for the explicitly listed OverflowError rows (convert_total_except_known, "
-         "by decide; the unrestricted statement ConvertTotal is false today: known finding F7). Tie: every string of length "
+         "is caught, so a value or the default is returned and nothing escapes (convert_total = ConvertTotal at full strength, "
+         "escapingRows_nil, convert_default_on_failure, by decide on every run; finding F7 is repaired in /repo 15bb75e). Tie: every string of length "
          "<= 4 (quick) / <= 5 (thorough) over {a, b, ' ', '\\n', '-', '<'} (indent: {a, ' ', '\\n', '\\r', U+2028}) x argument "
          "grids (truncate 168 combinations incl. rejected ones, indent 16, center 12, trim 6, replace 80) on the real "
          "filter functions and through rendered templates; random long Unicode strings; filesizeformat on boundary ints, "
          "floats, numeric strings; int/float on every table row plus random numeric spellings; wordwrap through the "
-         "model with textwrap's real output as parameter, the textwrap hypotheses evaluated by the driver per case. title, "
-         "capitalize, upper, lower, urlencode, round, striptags, format: correspondence with executable reference "
-         "definitions and documented contracts only (no Lean theorem).",
+         "model with textwrap's real output as parameter, the textwrap hypotheses evaluated by the driver per case. striptags (strings "
+         "of length <= 5/7 over {a,' ',<,>,-,!} plus random markup) and format (random formats with matching, missing, surplus "
+         "and ill-typed arguments) against their models. title, capitalize, upper, lower, urlencode, round: correspondence with "
+         "executable reference definitions and documented contracts only (no Lean theorem).",
     note="Trusted: Lean kernel; hand model Model/FiltStr.lean (tied by correspondence only); translator and the measured "
          "exception table (CPython facts for sampled value classes); textwrap's contract (hypothesis), Unicode case mapping, urllib quote, float "
-         "rounding/formatting, markupsafe, printf formatting are assumed (correspondence-only filters). Known finding F7: "
-         "float('inf')|int, Decimal('Infinity')|int and (10**400)|float, huge Fraction|float raise OverflowError.",
+         "rounding/formatting, html.unescape, number rendering of % are assumed; title/capitalize/upper/lower/urlencode/round are "
+         "correspondence-only. Finding F7 (OverflowError from "
+         "float('inf')|int, Decimal('Infinity')|int, (10**400)|float, huge Fraction|float) is fixed in /repo 15bb75e; the samples stay in the table.",
     design_ref="§5 C23",
 )
 
@@ -444,6 +457,9 @@ def run_filesize(ctx, res, impl, stats):
 # int / float
 # --------------------------------------------------------------------------------------------------------------
 
+FORMER_F7 = [("int", "float-inf", "0"), ("int", "float-neginf", "0"), ("int", "decimal-inf", "0"), ("float", "hugeint", "0.0"),
+             ("float", "hugeint-neg", "0.0"), ("float", "hugeint-2pow1024", "0.0"), ("float", "int-below-2pow1024", "0.0"),
+             ("float", "fraction-huge", "0.0")]
 INT_SENT = -987654321
 FLOAT_SENT = -98765.4321
 
@@ -497,6 +513,27 @@ def run_convert(ctx, res, impl, stats):
                             {"filter": filt, "sample": name, "base": base, "route": route}, no_input=True)
         stats["distinct"].add(("conv", name, base))
     stats["dist"]["convert_outcomes"] = outcomes
+    # counterexample finder of convert_total (driver): rows on which the decision model lets an exception out.  Every row was
+    # replayed on the real code above (a reproducing one is a concrete violation `C23:<filter>:<class>:<sample>`); a predicted
+    # escape that does not reproduce was reported as model-drift.
+    escapes = canon(core.driver_batch([[Atom("fs"), Atom("conv-escapes")]])[0][1])
+    stats["dist"]["model_predicted_escapes"] = [f"{f}:{n}:base{b}:{c}" for f, n, b, c in escapes]
+    if escapes and not ctx.proof_broken:
+        res.notes.append("convert_total proved although the finder reports escapes?")
+    # the samples of the repaired finding F7, with the filters' own defaults, end to end
+    for filt, name, want in FORMER_F7:
+        kind, mk = samples[name]
+        try:
+            got = impl.env.from_string("{{ x|%s }}" % filt).render(x=mk())
+        except Exception as e:  # noqa
+            got = "raises:" + type(e).__name__
+        stats["evaluations"] += 1
+        if got.startswith("raises:"):
+            res.violate(f"C23:{filt}:{got[7:]}:{name}", f"{{{{ x|{filt} }}}} with x = {_short(mk())} raises {got[7:]} instead of rendering the default {want!r}",
+                        {"filter": filt, "sample": name, "base": 10, "route": "render"})
+        elif got != want:
+            res.violate(f"C23:{filt}:default:{name}", f"{{{{ x|{filt} }}}} with x = {_short(mk())} renders {got!r}, the documented default is {want!r}",
+                        {"filter": filt, "sample": name, "base": 10, "route": "render"})
     # random numeric spellings against the documented definition (reference below catches everything: the filter is total)
     rng = ctx.rng("numstr")
     parts = ["", " ", "+", "-", "0", "1", "7", "42", "007", ".", ".5", "5.", "e", "E", "e3", "e-2", "e400", "_", "x", "0x", "0b1", "inf", "nan",
@@ -588,55 +625,6 @@ def ref_quote(s, for_qs):
             out.append("+")
         else:
             out.append("%%%02X" % b)
-    return "".join(out)
-
-
-def ref_striptags(s):
-    """Markup.striptags on text without '&': comments and tags removed, whitespace collapsed (markupsafe assumed)"""
-    # comments <!-- ... --> (an unterminated one is kept from its start), then tags <...> non-greedy
-    out, i = [], 0
-    while True:
-        j = s.find("<!--", i)
-        if j < 0:
-            out.append(s[i:])
-            break
-        out.append(s[i:j])
-        k = s.find("-->", j)
-        if k < 0:
-            out.append(s[j:])
-            break
-        i = k + 3
-    s = "".join(out)
-    out, i = [], 0
-    while True:
-        j = s.find("<", i)
-        if j < 0:
-            out.append(s[i:])
-            break
-        k = s.find(">", j)
-        if k < 0:
-            out.append(s[i:])
-            break
-        out.append(s[i:j])
-        i = k + 1
-    return " ".join("".join(out).split())
-
-
-def ref_format(fmt, args):
-    """%s, %d, %% only"""
-    out, i, k = [], 0, 0
-    while i < len(fmt):
-        if fmt[i] == "%" and i + 1 < len(fmt) and fmt[i + 1] in "sd%":
-            d = fmt[i + 1]
-            if d == "%":
-                out.append("%")
-            else:
-                out.append(str(args[k]) if d == "s" else str(int(args[k])))
-                k += 1
-            i += 2
-        else:
-            out.append(fmt[i])
-            i += 1
     return "".join(out)
 
 
@@ -766,43 +754,59 @@ def run_reference(ctx, res, jinja2, impl, stats):
         got = attempt(lambda: F.do_round(1.5, 0, bad))
         check("round", got, "raised:FilterArgumentError", f"method={bad!r}", "documented: method must be common, ceil or floor")
 
-    # striptags -----------------------------------------------------------------------------------------------
+    # striptags: Lean model (comment loop, tag loop, whitespace collapse) on text without '&'; entity unescaping is Python's
     t_strip = env.from_string("{{ s|striptags }}")
-    spool = ["a", "b", " ", "  ", "\n", "<", ">", "<b>", "</b>", "<!--", "-->", "-", "!", "<br/>", "<a href='x'>", "\t", "x y"]
-    stexts = strings_upto(["a", " ", "<", ">", "-"], ctx.pick(4, 6))
-    for _ in range(ctx.pick(1000, 10000)):
-        stexts.append("".join(rng.choice(spool) for _ in range(rng.randrange(0, 12))))
+    spool = ["a", "b", " ", "  ", "\n", "<", ">", "<b>", "</b>", "<!--", "-->", "-", "!", "<br/>", "<a href='x'>", "\t", "x y", "<!", "--", "\u00a0",
+             "\u2028", "\u00e9"]
+    stexts = strings_upto(["a", " ", "<", ">", "-", "!"], ctx.pick(5, 7))
+    for _ in range(ctx.pick(1500, 15000)):
+        stexts.append("".join(rng.choice(spool) for _ in range(rng.randrange(0, 14))))
     from markupsafe import Markup
-    for s in stexts:
-        want = ref_striptags(s)
-        check("striptags", str(F.do_striptags(s)), want, repr(s), "tags and comments removed, whitespace collapsed (markupsafe assumed)")
-        check("striptags", str(F.do_striptags(Markup(s))), want, f"Markup({s!r})", "tags and comments removed, whitespace collapsed (markupsafe assumed)")
-        check("striptags", t_strip.render(s=s), want, repr(s) + " (render)")
+    for s, rep in zip(stexts, core.driver_batch([[Atom("fs"), Atom("striptags"), s] for s in stexts])):
+        if rep[0] != "ok":
+            stats["oom"] += 1
+            continue
+        want = canon(rep[1])
+        what = "the model (comments removed, then tags, whitespace collapsed; its contract is proved)"
+        check("striptags", str(F.do_striptags(s)), want, repr(s), what)
+        check("striptags", str(F.do_striptags(Markup(s))), want, f"Markup({s!r})", what)
+        check("striptags", t_strip.render(s=s), want, repr(s) + " (render)", what)
         stats["distinct"].add(("striptags", s))
-    check("striptags", str(F.do_striptags("<p>a &amp; b</p>  <i>c&lt;d</i>")), "a & b c<d", "entities", "entities are unescaped after stripping")
+    check("striptags", str(F.do_striptags("<p>a &amp; b</p>  <i>c&lt;d</i>")), "a & b c<d", "entities", "entities are unescaped after stripping (html.unescape assumed)")
 
-    # format --------------------------------------------------------------------------------------------------
+    # format: Lean model for positional arguments and %s / %d / %% (str() and %d rendering of each argument are sent along)
     t_fmt = env.from_string("{{ f|format(*a) }}")
-    fpool = ["%s", "%d", "%%", "a", " ", ", ", "!", "x=", "%s%s", "-%d-"]
-    for _ in range(ctx.pick(800, 8000)):
+    fpool = ["%s", "%d", "%%", "a", " ", ", ", "!", "x=", "%s%s", "-%d-", "%", "s", "d"]
+    fcases, freqs = [], []
+    for _ in range(ctx.pick(1500, 15000)):
         fmt = "".join(rng.choice(fpool) for _ in range(rng.randrange(0, 7)))
-        need = []
-        i = 0
-        while i < len(fmt):
-            if fmt[i] == "%":
-                if fmt[i + 1] != "%":
-                    need.append(fmt[i + 1])
-                i += 2
-            else:
-                i += 1
-        args = [rng.choice([rng.randrange(-50, 50), True]) if d == "d" else rng.choice(["w", "", "é", 3, None, 2.5, "%s"]) for d in need]
-        want = ref_format(fmt, args)
-        check("format", attempt(lambda: F.do_format(fmt, *args)), want, f"{fmt!r} % {args!r}", "printf-style %s/%d/%% substitution")
-        check("format", attempt(lambda: t_fmt.render(f=fmt, a=args)), want, f"{fmt!r} % {args!r} (render)", "printf-style %s/%d/%% substitution")
+        ndir = len(re.findall(r"%[sd]", fmt.replace("%%", "")))
+        nargs = max(0, ndir + rng.choice([0, 0, 0, 0, -1, 1]))
+        args = [rng.choice([rng.randrange(-50, 50), True, "w", "", "\u00e9", 3, None, 2.5, "%s", -7.9, 10 ** 25]) for _ in range(nargs)]
+        enc = []
+        for v in args:
+            try:
+                d = "%d" % v
+            except TypeError:
+                d = Atom("none")
+            enc.append([str(v), d])
+        fcases.append((fmt, args))
+        freqs.append([Atom("fs"), Atom("format"), fmt, enc])
+    fdist = {}
+    for (fmt, args), rep in zip(fcases, core.driver_batch(freqs)):
+        if rep[0] == "oom":
+            stats["oom"] += 1
+            continue
+        want = canon(rep[1]) if rep[0] == "ok" else "raised:" + str(rep[1])
+        fdist["ok" if rep[0] == "ok" else str(rep[1])] = fdist.get("ok" if rep[0] == "ok" else str(rep[1]), 0) + 1
+        what = "the model of printf-style %s/%d/%% substitution (its contract is proved)"
+        check("format", attempt(lambda: F.do_format(fmt, *args)), want, f"{fmt!r} % {args!r}", what)
+        check("format", attempt(lambda: t_fmt.render(f=fmt, a=args)), want, f"{fmt!r} % {args!r} (render)", what)
         stats["distinct"].add(("format", fmt, repr(args)))
-    check("format", attempt(lambda: F.do_format("%(a)s-%(b)d", a="x", b=3)), "x-3", "keyword arguments")
-    check("format", attempt(lambda: F.do_format("%s", 1, a=2)), "raised:FilterArgumentError", "positional and keyword arguments together")
-    check("format", attempt(lambda: F.do_format("%s %s", 1)), "raised:TypeError", "too few arguments")
+    stats["dist"]["format_outcomes"] = fdist
+    check("format", attempt(lambda: F.do_format("%(a)s-%(b)d", a="x", b=3)), "x-3", "keyword arguments", "Python's % with a mapping (not modelled)")
+    check("format", attempt(lambda: F.do_format("%s", 1, a=2)), "raised:FilterArgumentError", "positional and keyword arguments together",
+          "documented: can't handle positional and keyword arguments at the same time")
 
     # wordcount on non-ASCII text (re's \w assumed) -------------------------------------------------------------
     for _ in range(ctx.pick(300, 3000)):
@@ -838,12 +842,6 @@ def run(ctx, res):
     run_filesize(ctx, res, impl, stats)
     run_convert(ctx, res, impl, stats)
     nref = run_reference(ctx, res, jinja2, impl, stats)
-    # Findings/F7.lean proves, over the present Gen table, that the full-strength ConvertTotal is false and that every
-    # listed known row escapes; if it stops building the finding no longer reproduces in the model (not a violation)
-    f7_ok, _log = core.lake_build(["JinjaV.Findings.F7"]) if not ctx.proof_broken else (False, "")
-    f7 = ("F7 reproduces in the model (Findings/F7.lean builds: ConvertTotal is false over the present table)" if f7_ok
-          else "Findings/F7.lean does not build: finding F7 no longer reproduces in the model (or the proofs are broken)")
-    res.notes.append(f7)
     res.coverage.update({
         "evaluations": stats["evaluations"],
         "distinct_nontrivial": len(stats["distinct"]),
@@ -854,7 +852,7 @@ def run(ctx, res):
                  "model against str.isspace / str.splitlines for every code point; filesizeformat on ints around every power of the "
                  "base, floats, numeric strings (model: unit selection; mantissa against exact rationals); int/float on every row of "
                  "the measured table (direct and rendered) plus random numeric spellings against the documented conversion; "
-                 "wordwrap against the model fed with textwrap's output; title/capitalize/upper/lower/urlencode/round/striptags/format against executable reference definitions "
+                 "wordwrap against the model fed with textwrap's output; striptags and format(%s,%d,%%) against their Lean models; title/capitalize/upper/lower/urlencode/round against executable reference definitions "
                  "and documented contracts (correspondence only)"),
         "samples": [
             {"filter": "truncate", "request": core.sx(grid_request("truncate", "a b-a")), "cells": len(grid_cells("truncate"))},
@@ -865,10 +863,8 @@ def run(ctx, res):
         "out_of_model": stats["oom"],
         "distribution": stats["dist"],
         "reference_checks": nref,
-        "finding_witness": f7,
-        "partial": "wordwrap is proved relative to textwrap's contract only; title/capitalize/upper/lower, urlencode, round, striptags, format and non-ASCII wordcount are "
-                   "correspondence-only (Python stdlib behaviour assumed); convert_total holds for the sampled value classes "
-                   "except the listed OverflowError rows (known finding F7)",
+        "partial": "wordwrap is proved relative to textwrap's contract only; title/capitalize/upper/lower, urlencode, round, striptags entities, format beyond %s/%d/%% and non-ASCII wordcount are "
+                   "correspondence-only (Python stdlib behaviour assumed); convert_total is about the sampled value classes",
     })
 
 
